@@ -333,6 +333,11 @@ func runC06Instance(dir string, g *rand.Rand, masks []api.EventMask, R, nreq int
 			for i := 0; i < 12; i++ {
 				id := fmt.Sprintf("%s-s%d", tag, i)
 				q := &c06Req{ID: id, Event: allEvents[g.IntN(len(allEvents))]}
+				if i == 0 {
+					// the very first request after the departure (the departed plugin is still listed, marked closed)
+					// is one of the three that collect results
+					q.Event = []api.Event{api.Event_UPDATE_CONTAINER, api.Event_CREATE_CONTAINER, api.Event_STOP_CONTAINER}[g.IntN(3)]
+				}
 				b := rt.A.BlockPluginSync()
 				q.Ticket = rig.Tick()
 				q.Call = q.Ticket
